@@ -49,6 +49,7 @@ struct Node
     bool created_by_run = false;
     bool readonly = false; // mode 0444: opening for writing fails with EACCES
     std::string link;      // non-empty: a symbolic link with this target (absolute, or relative to its directory)
+    int endless = 0;       // 1 / 2: a character device or fed FIFO that never reports end of file (zeros / blanks), like /dev/zero
     long long mtime = 1740000000; // simulated modification time (what stat reports); files of the corpus are older than every run
 };
 
@@ -84,6 +85,7 @@ struct OpenFile
     int sticky_errno = 0;
     bool dirseek_max = true;
     long long dirpos = 0;
+    int endless = 0;
 };
 
 struct TraceEntry
@@ -473,6 +475,7 @@ static int sim_open_fd(const std::string& abs, bool wr, bool trunc, bool append)
     of.writing = wr;
     Node& n = g.fs[abs];
     of.is_dir = n.dir;
+    of.endless = wr ? 0 : n.endless;
     of.dirseek_max = g.dirseek_max;
     if(!n.dir && !n.data.empty() && !(wr && trunc))
     {
@@ -596,6 +599,13 @@ ssize_t read(int fd, void* buf, size_t n)
             return -1;
         }
     }
+    if(of.endless)
+    {
+        // a device that always has more: the read is satisfied in full, end of file never comes
+        std::memset(buf, of.endless == 1 ? 0 : ' ', n);
+        sim::stats().count("fault.fired.read.endless_device", 1);
+        return (ssize_t)n;
+    }
     return raw_read(fd, buf, n);
 }
 
@@ -715,7 +725,7 @@ static int sim_stat(const std::string& abs, struct stat* st)
     std::memset(st, 0, sizeof *st);
     bool dir = abs == "/sim" || it->second.dir;
     const bool lnk = abs != "/sim" && !it->second.link.empty(); // only lstat gets here with an unresolved link
-    st->st_mode = lnk ? (S_IFLNK | 0777) : dir ? (S_IFDIR | 0755) : (S_IFREG | 0644);
+    st->st_mode = lnk ? (S_IFLNK | 0777) : dir ? (S_IFDIR | 0755) : (abs != "/sim" && it->second.endless) ? (S_IFCHR | 0666) : (S_IFREG | 0644);
     st->st_nlink = 1;
     st->st_size = lnk ? (off_t)it->second.link.size() : dir ? 4096 : (off_t)it->second.data.size();
     st->st_ino = (ino_t)(sim::fnv1a(abs.data(), abs.size()) | 1);
@@ -1451,6 +1461,7 @@ RunOutcome run_sbeppc(const std::vector<std::string>& args, const std::vector<Fa
             s.num(kv.second.readonly);
             s.str(kv.second.link);
             s.num(kv.second.mtime);
+            s.num(kv.second.endless);
         }
         s.num(g.cond_fired);
         s.num((long long)sim::stats().counters.size());
@@ -1537,6 +1548,7 @@ RunOutcome run_sbeppc(const std::vector<std::string>& args, const std::vector<Fa
         nd.readonly = d.num() != 0;
         nd.link = d.str();
         nd.mtime = d.num();
+        nd.endless = (int)d.num();
         fs[path] = nd;
     }
     g.cond_fired = (long)d.num();
@@ -2604,6 +2616,22 @@ void apply_include_op(const Op& op)
         g.fs["/sim/in/garbage.xml"].data = std::string((const char*)op.bytes.data(), op.bytes.size());
         insert_before_end(inc("in/garbage.xml"));
     }
+    else if(n == "endless")
+    {
+        // a path that names a device or a fed FIFO instead of a regular file (/dev/zero, `yes ' '`): every read
+        // succeeds in full and end of file never comes. arg0 even: an include target; odd: the schema path itself
+        const int fill = 1 + (int)(op.uarg(1) % 2);
+        if(op.uarg(0) % 2)
+        {
+            it->second.data.clear();
+            it->second.endless = fill;
+        }
+        else
+        {
+            g.fs["/sim/in/zero"].endless = fill;
+            insert_before_end(inc("in/zero"));
+        }
+    }
 }
 
 std::vector<std::string> argv_variant(long v, const std::string& schema, long outv)
@@ -3574,8 +3602,10 @@ Plan gen_c09(u64 seed, const std::string& tier)
     else if(family <= 6)
     {
         p.set("mode", "include-graph");
-        static const char* incs[] = {"inc.split", "inc.split", "inc.self", "inc.cycle", "inc.diamond", "inc.missing", "inc.dir", "inc.empty", "inc.relative", "inc.garbage", "inc.sibcycle"};
-        const char* k = incs[fl.below(11)];
+        static const char* incs[] = {"inc.split", "inc.split", "inc.self", "inc.cycle", "inc.diamond", "inc.missing", "inc.dir", "inc.empty", "inc.relative", "inc.garbage", "inc.sibcycle", "inc.endless"};
+        const char* k = incs[fl.below(12)];
+        // an endless input costs a quarter of a gigabyte of reading even when it is handled well: one in eight stays
+        if(std::string(k) == "inc.endless" && !fl.chance(1, 8)) k = "inc.split";
         Op m;
         m.name = k;
         m.s = {s};
